@@ -101,6 +101,7 @@ type Job struct {
 	Replay    *RunSpec `json:"replay,omitempty"`
 	Budget    float64  `json:"budget_s,omitempty"`
 	TraceFile string   `json:"trace_file,omitempty"`
+	RunLimitS float64  `json:"run_limit_s,omitempty"`
 }
 
 type Replay struct {
@@ -341,6 +342,13 @@ func runWorker(worker string, job Job, timeout time.Duration, race bool) *batchO
 var reRepoFrame = regexp.MustCompile(`(?m)^(github\.com/IBM/TSS/[^\s(]+(?:\([^)]*\))?[^\s(]*)\(`)
 
 func crashClass(stderr string) (class, summary string) {
+	if i := strings.Index(stderr, "VERIF-WEDGE class="); i >= 0 {
+		line := stderr[i+len("VERIF-WEDGE class="):]
+		if j := strings.IndexByte(line, '\n'); j > 0 {
+			line = line[:j]
+		}
+		return strings.TrimSpace(line), firstLines(stderr[i:], 60)
+	}
 	if i := strings.Index(stderr, "WARNING: DATA RACE"); i >= 0 {
 		blk := stderr[i:]
 		if j := strings.Index(blk, "=================="); j > 0 {
@@ -591,7 +599,7 @@ func cmdCheck(args []string) int {
 					if remain < 1 {
 						remain = 1
 					}
-					out := runWorker(b.worker, Job{Property: prop, Tier: tier, Seeds: seeds, First: first, Budget: remain}, time.Duration(remain+120)*time.Second, m.Race)
+					out := runWorker(b.worker, Job{Property: prop, Tier: tier, Seeds: seeds, First: first, Budget: remain, RunLimitS: m.RunLimitS}, time.Duration(remain+120)*time.Second, m.Race)
 					mu.Lock()
 					for _, r := range out.results {
 						a.add(r)
@@ -789,7 +797,7 @@ type evalOut struct {
 // evalSpec executes one explicit run in a fresh worker and reports whether a
 // violation of class `class` occurs ("" = any).
 func evalSpec(b *built, m *meta.Check, spec RunSpec, class string, wantTrace bool) *evalOut {
-	job := Job{Property: spec.Property, Tier: spec.Tier, Replay: &spec}
+	job := Job{Property: spec.Property, Tier: spec.Tier, Replay: &spec, RunLimitS: m.RunLimitS}
 	var tf string
 	if wantTrace {
 		f, _ := os.CreateTemp("", "verif-trace-")
@@ -798,7 +806,11 @@ func evalSpec(b *built, m *meta.Check, spec RunSpec, class string, wantTrace boo
 		defer os.Remove(tf)
 		job.TraceFile = tf
 	}
-	out := runWorker(b.worker, job, 10*time.Minute, m.Race)
+	evalTimeout := 90 * time.Second
+	if m.RunLimitS > 0 {
+		evalTimeout = time.Duration(m.RunLimitS+60) * time.Second
+	}
+	out := runWorker(b.worker, job, evalTimeout, m.Race)
 	eo := &evalOut{}
 	if out.crashed {
 		c, sum := crashClass(out.stderr)
